@@ -1615,11 +1615,20 @@ fn run_c17(args: &Args) -> Report {
         let mut file_of: BTreeMap<(String, String), PathBuf> = BTreeMap::new(); // (pkg, module) -> path
         let mut uses_of: BTreeMap<String, (PathBuf, String, Vec<(String, u32, u32)>)> = BTreeMap::new(); // pkg -> entry file, text, uses
         let mut test_uses: Option<(PathBuf, String, Vec<(String, u32, u32)>)> = None; // the root's test/ module
+        // One tree in four has a dependency that is FETCHED LATE: the root's manifest may list
+        // it from the start, but build/packages/latedep appears on disk only after the server
+        // has answered its first queries (`gleam add` / `gleam deps download` next to a running
+        // editor).
+        let late = cr.chance(1, 4);
+        let late_listed = late && cr.chance(1, 2);
         for p in &pkgs {
             std::fs::create_dir_all(p.dir.join("src")).unwrap();
             let mut toml = format!("name = \"{}\"\nversion = \"1.0.0\"\n\n[dependencies]\n", p.name);
             for d in &p.deps {
                 toml.push_str(&format!("{d} = \"~> 1.0\"\n"));
+            }
+            if late_listed && p.key == "app" {
+                toml.push_str("latedep = \"~> 1.0\"\n");
             }
             for d in &p.path_deps {
                 toml.push_str(&format!("{d} = {{ path = \"{}{d}\" }}\n", if nested_path { "libs/" } else { "../" }));
@@ -1798,7 +1807,55 @@ fn run_c17(args: &Args) -> Report {
         // still under build/packages (external, never editable); the root no longer depends
         // on it, so modules only it has must stop resolving from the root.
         let root_listed: Vec<String> = pkgs[0].deps.clone();
-        if !root_listed.is_empty() && cr.chance(1, 2) {
+        if late {
+            let p0 = &pkgs[0];
+            let ldir = p0.dir.join("build/packages/latedep");
+            std::fs::create_dir_all(ldir.join("src")).unwrap();
+            std::fs::write(ldir.join("gleam.toml"), "name = \"latedep\"\nversion = \"1.0.0\"\n\n[dependencies]\n").unwrap();
+            let ltext = "pub fn late_fn(x) { x }\n\npub fn late_caller() { late_fn(1) }\n";
+            let lfile = ldir.join("src/latedep_entry.gleam");
+            std::fs::write(&lfile, ltext).unwrap();
+            let mut events = vec![json!({"uri": file_uri(&ldir.join("gleam.toml").display().to_string()), "type": 1}), json!({"uri": file_uri(&lfile.display().to_string()), "type": 1})];
+            if !late_listed {
+                // added to the manifest only now
+                let mut toml = format!("name = \"{}\"\nversion = \"1.0.0\"\n\n[dependencies]\n", p0.name);
+                for d in &p0.deps {
+                    toml.push_str(&format!("{d} = \"~> 1.0\"\n"));
+                }
+                toml.push_str("latedep = \"~> 1.0\"\n");
+                for d in &p0.path_deps {
+                    toml.push_str(&format!("{d} = {{ path = \"{}{d}\" }}\n", if nested_path { "libs/" } else { "../" }));
+                }
+                std::fs::write(p0.dir.join("gleam.toml"), toml).unwrap();
+                events.push(json!({"uri": file_uri(&p0.dir.join("gleam.toml").display().to_string()), "type": 2}));
+            }
+            let told = cr.chance(1, 2);
+            if told {
+                s.notify("workspace/didChangeWatchedFiles", json!({"changes": events}));
+            }
+            let layout = format!("dependency-fetched-late:{}:{}", if late_listed { "listed-from-the-start" } else { "added-to-the-manifest-late" }, if told { "watched-files-event" } else { "no-event" });
+            rep.see("layouts", layout.clone());
+            version += 1;
+            let lu = file_uri(&lfile.display().to_string());
+            s.notify("textDocument/didOpen", json!({"textDocument":{"uri":lu,"languageId":"gleam","version":version,"text":ltext}}));
+            let mut rp = replay.clone();
+            rp["late_dependency"] = json!({"layout": layout, "opening_order": order_name});
+            // wherever a package under build/packages comes from and whenever it arrived: it is
+            // a dependency, its symbols are not editable
+            let id = s.request("textDocument/prepareRename", json!({"textDocument":{"uri":lu},"position":{"line":0,"character":8}}));
+            let Some(pr) = s.wait_response(id, Duration::from_secs(20)) else { rep.count("server_died(C15's business)", 1); continue; };
+            let ok = pr.get("result").map(|r| !r.is_null()).unwrap_or(false);
+            rep.count("prepare_rename_queries_in_a_late_dependency", 1);
+            if ok {
+                rep.violate(format!("external-package-editability:late-dependency:build-packages-accepted:{}", if late_listed { "listed" } else { "added-late" }), format!("{layout}: prepareRename on `late_fn` of build/packages/latedep accepts"), rp.clone());
+            }
+            let id = s.request("textDocument/rename", json!({"textDocument":{"uri":lu},"position":{"line":0,"character":8},"newName":"renamed_late"}));
+            let Some(rr) = s.wait_response(id, Duration::from_secs(20)) else { rep.count("server_died(C15's business)", 1); continue; };
+            let edits_dependency = rr.get("result").map(|r| r.to_string().contains("build/packages/latedep")).unwrap_or(false);
+            if edits_dependency {
+                rep.violate(format!("rename-edits-dependency:late-dependency:{}", if late_listed { "listed" } else { "added-late" }), format!("{layout}: rename of `late_fn` returns edits in build/packages/latedep"), rp);
+            }
+        } else if !root_listed.is_empty() && cr.chance(1, 2) {
             let dropped = root_listed[cr.below(root_listed.len())].clone();
             let p0 = &pkgs[0];
             let mut toml = format!("name = \"{}\"\nversion = \"1.0.0\"\n\n[dependencies]\n", p0.name);
